@@ -40,7 +40,7 @@ ALL = [t for t in ITER_TOOLS if t != "tee"] + AGG_TOOLS
 
 
 @st.composite
-def tool_cases(draw, name, tier):
+def tool_cases(draw, name, tier, cfaults=True):
     case = draw(base_case(name, max_len=3 if tier == "quick" else 5, max_src=3))
     if name != "iter_sentinel":
         for s in case["srcs"]:
@@ -52,6 +52,10 @@ def tool_cases(draw, name, tier):
             s["cret"] = draw(st.sampled_from([None, None, True]))
             # the cleanup of a source suspends, too: a cancellation may arrive while the tool is closing its sources
             s["csusp"] = draw(st.booleans())
+            if cfaults and draw(st.integers(0, 5)) == 0 and s["fl"] not in ("agen", "aclass_noclose", "areiter"):
+                # ... and the cleanup of this source fails (after having closed it): a second interruption of the
+                # tool's cleanup, on top of the cancellation - the OTHER sources must be released all the same
+                s["cfault"] = "LookupError"
     else:
         case["srcs"][0]["fl"] = "async"
         case["srcs"][0]["susp"] = 1
@@ -98,7 +102,13 @@ def run_tool(case, cancel_at):
         tool = case["tool"]
         if not b.ctx.cancel_delivered:
             return n
-        if outcome[0] != "raise" or outcome[1] is not cancel:
+        replaced = False
+        if outcome[0] == "raise" and outcome[1] is not cancel and any(s_.get("cfault") for s_ in case["srcs"]):
+            # a source's own cleanup failed AFTER the cancellation had been raised: as with nested finally blocks the
+            # later failure propagates.  (The cancellation need not be in its __context__ chain: a source closed
+            # through the aclose() of a helper generator fails while a GeneratorExit is being handled.)
+            replaced = any(outcome[1] is s_.close_fault for s_ in b.srcs if getattr(s_, "close_fault", None))
+        if (outcome[0] != "raise" or outcome[1] is not cancel) and not replaced:
             raise Violation(f"C18/{tool}/cancellation-not-propagated",
                             f"cancel_at={cancel_at} outcome={outcome!r}", case=dict(case, cancel_at=cancel_at))
         meddling = [e for e in b.ctx.log if e[0] in ("asend", "athrow")]
